@@ -1,9 +1,9 @@
-(* Obligation C07/peek_spec'.  Statement as printed by Coq from Inferno.C07.ReducerProofs; proof by reference.
+(* Obligation C07/peek_head.  Statement as printed by Coq from Inferno.C07.ReducerProofs; proof by reference.
    This file contains nothing else, so the statement cannot be weakened quietly. *)
 From Coq Require Import List ZArith Bool Arith Lia.
 From Inferno Require Import Base.Num Gen.Infra C01.Ring C01.RingProofs C07.Reducer C07.ReducerProofs.
 Import ListNotations.
-Theorem peek_spec' : forall (M : Num) (A : Type) (r : @reducer M A),
+Theorem peek_head : forall (M : Num) (A : Type) (r : @reducer M A),
   @rwf M A r ->
   0 < @N A unit (@rrec M A r) ->
   @rd_peek M A r =
@@ -15,5 +15,5 @@ Theorem peek_spec' : forall (M : Num) (A : Type) (r : @reducer M A),
               | Some s => s
               | None => []
               end (@hd (list A) [] (@rhist M A r))).
-Proof. exact (@Inferno.C07.ReducerProofs.peek_spec'). Qed.
-Print Assumptions peek_spec'.
+Proof. exact (@Inferno.C07.ReducerProofs.peek_head). Qed.
+Print Assumptions peek_head.
